@@ -65,7 +65,7 @@ def keys_along(acts):
     out = []
     for i, a in enumerate(acts):
         n, b = a[0], a[1]
-        c = cfg.setdefault(b, {"align": "none", "stable": "none", "scalar": 0, "coup": 0, "naming": "default", "rx": "sub" if b == 3 else "full"})
+        c = cfg.setdefault(b, {"align": "none", "stable": "none", "scalar": 0, "coup": 0, "naming": "default", "rx": "sub" if b == 3 else "relab" if b == 4 else "full"})
         ch = choice.setdefault(b, {})
         perm.setdefault(b, 0)
         if n == "SetAlign":
@@ -110,13 +110,18 @@ def pair_histories(alphabet):
         hs.append(conf(1, A) + [["Formulate", 1]] + conf(1, B) + [["Formulate", 1]] + conf(1, A) + [["Formulate", 1]])
         hs.append(conf(1, A) + conf(2, B) + [["Formulate", 2], ["Formulate", 1], ["Formulate", 2]])
     # two reactions over the same particles in one process: builder 3 works on the decay with a restricted helicity set
+    def conf3(b, K):
+        cfg, choice, perm = K
+        return ([["SetAlign", b, cfg["align"]], ["SetStable", b, cfg["stable"]], ["SetScalar", b, cfg["scalar"]], ["SetCoup", b, cfg["coup"]],
+                 ["SetNaming", b, cfg.get("naming", "default")]] + [["Assign", b, n, choice.get(n, "none")] for n in ("R1", "R2")] + ([["Permutate", b]] if perm else []))
+
     for A in alphabet:
-        def conf3(b, K):
-            cfg, choice, perm = K
-            return ([["SetAlign", b, cfg["align"]], ["SetStable", b, cfg["stable"]], ["SetScalar", b, cfg["scalar"]], ["SetCoup", b, cfg["coup"]],
-                     ["SetNaming", b, cfg.get("naming", "default")]] + [["Assign", b, n, choice.get(n, "none")] for n in ("R1", "R2")] + ([["Permutate", b]] if perm else []))
         hs.append(conf3(3, A) + [["Formulate", 3]] + conf3(1, A) + [["Formulate", 1], ["Formulate", 3]])
         hs.append(conf3(1, A) + [["Formulate", 1]] + conf3(3, A) + [["Formulate", 3], ["Formulate", 1]])
+    # ... and builder 4 on the reaction with other particle labels (equal transitions for qrules)
+    for A in alphabet[:4]:
+        hs.append(conf3(4, A) + [["Formulate", 4]] + conf3(1, A) + [["Formulate", 1], ["Formulate", 4]])
+        hs.append(conf3(1, A) + [["Formulate", 1]] + conf3(4, A) + [["Formulate", 4], ["Formulate", 1]])
     return hs
 
 
@@ -139,16 +144,16 @@ def run(chk, replay=None):
         raise Machinery(f"Builder design violates {res.violated}")
     if any(res.coverage.get(a, 0) == 0 for a in ("SetAlign", "SetStable", "SetScalar", "SetCoup", "SetNaming", "Assign", "Permutate", "Formulate")):
         raise Machinery(f"vacuous: action coverage {res.coverage}")
-    for dev in ("DevPinned", "DevNoReset", "DevResetAtEnd", "DevSharedNameMap", "DevCrossReactionCache"):
-        r = tlc.run("Builder_MC", MC_CFG.format(**small, builders="{1, 3}" if dev == "DevCrossReactionCache" else "{1, 2}", ops=6, dev=dev, props="INVARIANT Pure\n"), workers=4, timeout=600)
+    for dev in ("DevPinned", "DevNoReset", "DevResetAtEnd", "DevSharedNameMap", "DevCrossReactionCache", "DevProcessWideMemo"):
+        r = tlc.run("Builder_MC", MC_CFG.format(**small, builders="{1, 3}" if dev == "DevCrossReactionCache" else "{1, 4}" if dev == "DevProcessWideMemo" else "{1, 2}", ops=6, dev=dev, props="INVARIANT Pure\n"), workers=4, timeout=600)
         if r.ok:
             raise Machinery(f"Builder model insensitive to deviation {dev}")
-    chk.part("deviation_sensitivity", DpdCacheAliasing="violates Pure", NoReset="violates Pure", ResetAtEnd="violates Pure", SharedNameMap="violates Pure", CrossReactionCache="violates Pure")
+    chk.part("deviation_sensitivity", DpdCacheAliasing="violates Pure", NoReset="violates Pure", ResetAtEnd="violates Pure", SharedNameMap="violates Pure", CrossReactionCache="violates Pure", ProcessWideMemo="violates Pure")
 
     # 2. behaviours
     big = dict(aligns='{"none", "axis", "dpd1", "dpd2"}', stables='{"none", "all", "one", "bogus"}', names='{"R1", "R2"}', tags='{"none", "bw", "bwff"}')
     nsim = 60 if tier == "thorough" else 12
-    behs = tlc.simulate("Builder_MC", MC_CFG.format(**big, builders="{1, 2, 3}", ops=14, dev="DevNone", props=""), num=nsim, depth=15, seed=chk.seed + 3, with_states=False)
+    behs = tlc.simulate("Builder_MC", MC_CFG.format(**big, builders="{1, 2, 3, 4}", ops=14, dev="DevNone", props=""), num=nsim, depth=15, seed=chk.seed + 3, with_states=False)
     histories = [spec_actions(b) for b in behs]
     base = {"align": "none", "stable": "none", "scalar": 0, "coup": 0, "naming": "default"}
     alphabet = [
